@@ -585,6 +585,8 @@ def run(ck):
         c11_6(ck, prog, 'C15.8')
         c15_9(ck, prog)
         c15_10(ck, prog)
+        from rules.C10 import c10_12
+        c10_12(ck, prog, 'C15.12')
         r = ck.rule('C15.11', 'a function that stores a requested maximum (loader / transport / connection `..._set_max_...`) only ever lowers the request: each replacement of the parameter by a constant K lies behind `param > C` with C >= K (clamping from above); a request of 0 is stored as 0', 'DOM',
                     breaks='a configured per-message descriptor limit of 0 ("this bus passes no descriptors") is turned into the default 16: messages with descriptors are accepted and surplus descriptors held for a connection whose limit is 0', floor=2)
         lib.limit_setters_only_lower(prog, r, {'dbus/dbus-message.c', 'dbus/dbus-transport.c', 'dbus/dbus-connection.c'})
